@@ -143,7 +143,11 @@ let full_api (qh : bool) (t : c12_tree) (qs : c12_str list) : string =
   let hyp = List.for_all (fun l -> not (List.mem '\n' l)) lines && List.for_all c12_rline_ok rl &&
             c12_hierarchy (List.map (fun (k, _) -> c12_path k) (c12_rl_assigns rl [])) in
   Buffer.add_string b (Printf.sprintf " rr=%s:%s rt=%d" (status_str rr.c12_ir_status) (dump rr.c12_ir_tree) (if hyp then 1 else 0));
-  Buffer.add_string b " C=ok";
+  (* assignment onto a tree that already holds other content (c12_tree_assign: copy and swap): the target afterwards is
+     the source -- theorem C12_assign_onto_content, run here on the extracted code *)
+  let old_content = fst (c12_set (fst (c12_set c12_empty [explode "junk"] (explode "1"))) [explode "old"; explode "deep"; explode "k"] (explode "2")) in
+  let (t1, destroyed) = c12_tree_assign old_content t in
+  Buffer.add_string b (if dump t1 = dump t && dump destroyed = dump old_content then " C=ok" else " C=THEOREM-INSTANCE-MISMATCH(C12_assign_onto_content)");
   Buffer.contents b
 
 let tree_of_predoc_v (qh : bool) (f : string) : c12_tree = (c12_parse_ini qh (str_field f) c12_empty true).c12_ir_tree
@@ -216,6 +220,10 @@ let get_case (ty : string) (v : c12_str) : string * string =
   | "llong" -> scalar C12Long | "ullong" -> scalar C12ULong
   | "uchar" | "schar" -> (match via_tree (c12_parse_scalar c12_extract_char) v with Some c -> "OK x" ^ hex [c] | None -> exc), "?"
   | "flt" -> (match via_tree (c12_parse_scalar c12_extract_double) v with Some d -> "OK " ^ decf d | None -> exc), "?"
+  | "vecf" -> (match via_tree (c12_parse_vector c12_extract_double) v with
+               | Some l -> "OK [" ^ String.concat "," (List.map decf l) ^ "]" | None -> exc), "?"
+  | "arr2d" -> (match via_tree (c12_parse_range true c12_extract_double (nat_of_int 2)) v with
+               | Some l -> "OK [" ^ String.concat "," (List.map dec l) ^ "]" | None -> exc), "?"
   | "vecvec" ->
       let inner s = c12_parse_vector (c12_ity_extract C12Int) s in
       (match via_tree (fun s -> c12_all_some inner (c12_split s)) v with
@@ -332,6 +340,18 @@ let do_case (line : string) : string =
     let (tr, st) = c12_read_options args c12_empty in
     (* spec for every argument vector: theorem C12_options_all_argv *)
     let spec = let (t2, s2) = c12_spec_read_options args c12_empty in Printf.sprintf "%s %s" (status_str s2) (dump t2) in
+    Printf.sprintf "%s %s | %s" (status_str st) (dump tr) spec
+  | "optn" ->
+    (* readOptions with argc - 1 = n counted arguments; the array holds all of the list (dimension audit 2) *)
+    let all = strs_field t.(2) in
+    let n = min (int_of_string t.(1)) (List.length all) in
+    let counted = List.filteri (fun i _ -> i < n) all in
+    let (tr, st) = c12_read_options_n (nat_of_int n) all c12_empty in
+    (* spec: the counted arguments alone (theorem C12_options_argc_oversized); it does not speak when the last
+       counted argument is an option without its value and the array goes on *)
+    let dangling = snd (c12_options_scan counted) in
+    let spec = if dangling && List.length all > n then "?"
+               else let (t2, s2) = c12_spec_read_options counted c12_empty in Printf.sprintf "%s %s" (status_str s2) (dump t2) in
     Printf.sprintf "%s %s | %s" (status_str st) (dump tr) spec
   | "nopt" ->
     let kw = strs_field t.(4) in
